@@ -61,6 +61,10 @@ structure Cfg where
   fqCap : Nat
   deriving DecidableEq, Repr
 
+/-- `coalescedFailureQueueSize` of the running actor system (tied to the source constant by
+    `C27_fq_cap_tie` and by the differential) -/
+def sysFanoutCap : Nat := 256
+
 /-- `make(chan *RemoteMessage, maxBatch*4)` -/
 def Cfg.cap (c : Cfg) : Nat := c.maxBatch * 4
 
